@@ -1,8 +1,64 @@
-/- driver component stub: replaced by the real component when its model exists -/
+/- driver component `winner`: Impl.winner / Impl.hasRoad (model of game.py) and the
+   executable formulation of the specification (Spec.outcomeB, closure by rounds) -/
 import TakVerif.Driver.Ser
+import TakVerif.Model.Winner
+import TakVerif.Spec.Road
 
 namespace Tak.Driver.Winner
+open Tak.Ser
 
-def handle : List String → Option String := fun _ => none
+def showReason : Option WinReason → String
+  | some .road => "ROAD"
+  | some .flats => "FLATS"
+  | none => "NONE"
+
+def showOutcome (o : Outcome) : String := s!"{showOptColor o.1} {showReason o.2}"
+
+def bit (b : Bool) : String := if b then "1" else "0"
+
+/-- ops (a position that is not well formed answers `bad-op`: the theorems are stated under `WF`):
+  `winner <pos7>`   → `<W|B|N> <ROAD|FLATS|NONE>`       Impl.winner   (flood fill model)
+  `hasroad <pos7>`  → `W|B|N`                            Impl.hasRoad
+  `both <pos7>`     → `<W|B|N> <ROAD|FLATS|NONE> <W|B|N>`  Impl.winner then Impl.hasRoad (one line for both)
+  `spec <pos7>`     → `<W|B|N> <ROAD|FLATS|NONE>`       Spec.outcomeB (closure by rounds)
+  `specroad <pos7>` → `W|B|N`                            Spec.roadAnswerB
+  `specboth <pos7>` → `<W|B|N> <ROAD|FLATS|NONE> <W|B|N>`  Spec.outcomeB then Spec.roadAnswerB
+  `facts <pos7>`    → `wroad=<0|1> broad=<0|1> full=<0|1> wempty=<0|1> bempty=<0|1> wflats=<n> bflats=<n> justmoved=<W|B>`
+                      the ingredients of the specification's verdict (for classifying a failure)
+-/
+def handle : List String → Option String
+  | "winner" :: rest => do
+    let p ← parsePos rest
+    if ¬ p.WF then none else
+    pure (showOutcome (Impl.winner p))
+  | "hasroad" :: rest => do
+    let p ← parsePos rest
+    if ¬ p.WF then none else
+    pure (showOptColor (Impl.hasRoad p))
+  | "both" :: rest => do
+    let p ← parsePos rest
+    if ¬ p.WF then none else
+    pure (showOutcome (Impl.winner p) ++ " " ++ showOptColor (Impl.hasRoad p))
+  | "specboth" :: rest => do
+    let p ← parsePos rest
+    if ¬ p.WF then none else
+    pure (showOutcome (Spec.outcomeB p) ++ " " ++ showOptColor (Spec.roadAnswerB p))
+  | "spec" :: rest => do
+    let p ← parsePos rest
+    if ¬ p.WF then none else
+    pure (showOutcome (Spec.outcomeB p))
+  | "specroad" :: rest => do
+    let p ← parsePos rest
+    if ¬ p.WF then none else
+    pure (showOptColor (Spec.roadAnswerB p))
+  | "facts" :: rest => do
+    let p ← parsePos rest
+    if ¬ p.WF then none else
+    pure (s!"wroad={bit (Spec.roadB p .white)} broad={bit (Spec.roadB p .black)} " ++
+          s!"full={bit (decide (Spec.BoardFull p))} " ++
+          s!"wempty={bit (decide (Spec.ReserveEmpty p .white))} bempty={bit (decide (Spec.ReserveEmpty p .black))} " ++
+          s!"wflats={Spec.topFlats p .white} bflats={Spec.topFlats p .black} " ++
+          s!"justmoved={showColor (Spec.justMoved p)}")
+  | _ => none
 
 end Tak.Driver.Winner
